@@ -259,6 +259,41 @@ theorem storage_reads_are_snapshots {w : World} (wf : WF w) {m : Method} (hm : m
       exact generated_methods_disciplined m' hm'
   exact (published_objects_immutable wf (generated_methods_disciplined m hm) ar evs hd r hr hnc).2 fuel
 
+/-- an event of a history of today's storages AND of the public deep-copy API: a call of a generated storage method or of one of
+the `deepApi` bodies (`Study.trials`, `best_trial`, `user_attrs`, `Trial.params`, …) with any arguments, or a user write -/
+def fromSourceOrApi : Ev → Prop
+  | .call body _ => (∃ m ∈ HeapMethods.methods, m.body = body) ∨ (∃ m ∈ HeapMethods.deepApi, m.body = body)
+  | .userMut .. => True
+
+/-- **api_reads_are_snapshots** — `storage_reads_are_snapshots` for histories that INTERLEAVE the storage methods with the
+`deepApi` bodies (and user writes), and for a first call of either kind: (1) whatever the call returns without copying stays
+the same under every such later history; (2) if the call is a `deepApi` getter, everything it returns is a deep copy made of
+new objects that the user owns — and still owns after the history (so `deepcopy_results_independent` applies to it).
+Both rest on the two `decide`-d tables `generated_methods_disciplined` / `generated_deep_api_returns_copies`. -/
+theorem api_reads_are_snapshots {w : World} (wf : WF w) {m : Method}
+    (hm : m ∈ HeapMethods.methods ∨ m ∈ HeapMethods.deepApi)
+    (ar : Args) (evs : List Ev) (hsrc : ∀ e ∈ evs, fromSourceOrApi e) :
+    (∀ r ∈ (callM m.body ar w).2, (∀ a, r ≠ .copy a) → ∀ fuel,
+      denote fuel (runEvs (callM m.body ar w).1 evs) r = denote fuel (callM m.body ar w).1 r) ∧
+    (m ∈ HeapMethods.deepApi → ∀ r ∈ (callM m.body ar w).2,
+      ∃ a, r = .copy a ∧ a ∈ (callM m.body ar w).1.uo ∧ a ∈ (runEvs (callM m.body ar w).1 evs).uo) := by
+  have hmd : disciplined m.body = true := by
+    rcases hm with hm | hm
+    · exact generated_methods_disciplined m hm
+    · exact (generated_deep_api_returns_copies m hm).2
+  have hd : ∀ e ∈ evs, e.disciplined = true := by
+    intro e he
+    cases e with
+    | userMut t k v => rfl
+    | call body ar' =>
+      rcases hsrc _ he with ⟨m', hm', rfl⟩ | ⟨m', hm', rfl⟩
+      · exact generated_methods_disciplined m' hm'
+      · exact (generated_deep_api_returns_copies m' hm').2
+  refine ⟨fun r hr hnc fuel => (published_objects_immutable wf hmd ar evs hd r hr hnc).2 fuel, ?_⟩
+  intro hapi r hr
+  obtain ⟨a, rfl, ha⟩ := deepcopy_result_is_new wf (generated_deep_api_returns_copies m hapi).1 ar r hr
+  exact ⟨a, rfl, ha, runEvs_uo_mono evs a ha⟩
+
 /-! ## non-vacuity, and the discipline is what makes the difference -/
 
 /-- a trial in slot 7 with a `user_attrs` dict (field 2) holding key 1 ↦ 10 -/
@@ -289,7 +324,8 @@ example :
     r.2 = [.addr 1] ∧ denote 3 w2 (.addr 1) = denote 3 r.1 (.addr 1) ∧
       (callM [.load, .ret] args0 w2).2 = [.addr 2] ∧ denote 3 w2 (.addr 2) ≠ denote 3 w2 (.addr 1) := by decide
 
-/-- **discipline_is_necessary (setter)**: the setter with the dict copy removed
+/-- **discipline_is_necessary (setter)** — an EXAMPLE of a breach, not a necessity proof (the discipline is sufficient; a body
+outside it is not thereby shown to break snapshots, this one is shown to by evaluation): the setter with the dict copy removed
 (`trial.user_attrs[key] = value` on the copied trial) is rejected by the discipline, and it does
 change what a previously returned trial denotes. -/
 theorem undisciplined_setter_breaks_snapshot :
@@ -302,7 +338,8 @@ theorem undisciplined_setter_breaks_snapshot :
 /-- the old study-attribute setter (`study.user_attrs[key] = value`, finding F8) is rejected too -/
 example : disciplined [.load, .mutCur] = false := by decide
 
-/-- **discipline_is_necessary (getter)**: a getter returning the container itself is rejected, and
+/-- **discipline_is_necessary (getter)** — again an EXAMPLE of a breach, not a necessity proof: a getter returning the
+container itself is rejected, and
 what it returned changes with the next write. -/
 theorem live_container_is_not_a_snapshot :
     disciplined [.loadAll, .ret] = false ∧
@@ -324,5 +361,10 @@ example :
 example : returnsOnlyDeep [.load, .ret] = false := by decide
 
 example : HeapMethods.methods.length > 40 ∧ HeapMethods.deepApi.length > 10 := by decide +kernel
+
+/-- `api_reads_are_snapshots` is about something: histories that interleave both kinds of calls exist (every `deepApi` body and
+every storage method body is an admissible event) -/
+example : ∀ m ∈ HeapMethods.deepApi, ∀ ar, fromSourceOrApi (.call m.body ar) := fun m hm _ => Or.inr ⟨m, hm, rfl⟩
+example : ∀ m ∈ HeapMethods.methods, ∀ ar, fromSourceOrApi (.call m.body ar) := fun m hm _ => Or.inl ⟨m, hm, rfl⟩
 
 end OptunaVerif.C20
